@@ -66,32 +66,6 @@ theorem C20_entry_is_portrayal_or_default (df : Defaults) (heap : Heap) (p : Por
       e.ignored = (Dict.keys (portrayed heap p a.id)).filter (fun k => !supportedKeys.contains k) :=
   ⟨_, by simp [entryOf, hl], collectOne_spec df l _⟩
 
-/-- The optional arrays `alpha` / `edgecolors` / `linewidths` (`alphas`, `edgecolorss`, `linewidthss` are
-    `optArray` of the respective field; fix V7): the array is empty exactly when no agent's portrayal specifies
-    the key, and otherwise it has exactly one slot per entry, in the order of the entries, holding the value
-    the portrayal returned or `None` — never a shorter array that the masks of `_scatter` would not fit. -/
-theorem C20_collect_optional_arrays (f : Entry → Option Val) (es : List Entry) :
-    (optArray f es = [] ↔ ∀ e ∈ es, f e = none) ∧
-    (optArray f es ≠ [] → optArray f es = es.map f ∧ (optArray f es).length = es.length) := by
-  have hall : (es.all fun e => (f e).isNone) = true ↔ ∀ e ∈ es, f e = none := by
-    rw [List.all_eq_true]
-    exact ⟨fun h e he => by simpa using h e he, fun h e he => by simp [h e he]⟩
-  unfold optArray
-  split
-  · rename_i h
-    exact ⟨⟨fun _ => hall.mp h, fun _ => rfl⟩, fun hne => absurd rfl hne⟩
-  · rename_i h
-    refine ⟨⟨fun hm => ?_, fun hn => absurd (hall.mpr hn) h⟩, fun _ => ⟨rfl, List.length_map _⟩⟩
-    rw [List.map_eq_nil_iff] at hm
-    subst hm
-    simp at h
-
-/-- The location rule: `agent.pos` if it is set, `agent.cell.coordinate` otherwise. -/
-theorem C20_location_rule (a : Agent) :
-    (∀ p, a.pos = some p → a.location = some p) ∧ (a.pos = none → a.location = a.cell) := by
-  unfold Agent.location
-  exact ⟨fun p hp => by rw [hp], fun hp => by rw [hp]⟩
-
 /-- Witness V3: with the pops done in place, a portrayal handing the same dict `{"color": "red"}` to two
     agents gives the second agent the default colour and leaves the dict empty; the repaired code records
     red for both. -/
@@ -187,18 +161,50 @@ theorem C20_marker_values (fam : Family) (heap : Heap) (p : Portrayal) (a : Agen
   exact ⟨{ collectOne drawDefaults l (portrayed heap p a.id) with loc := transform fam l }, by simp [markerOf, hl],
     rfl, hs.2.1, hs.2.2.1, hs.2.2.2.1, hs.2.2.2.2.1, hs.2.2.2.2.2.1, hs.2.2.2.2.2.2.1, hs.2.2.2.2.2.2.2.1⟩
 
-/-- `draw_space` succeeds for every reachable space of the twelve classes, every heap and every portrayal
-    — shared dicts and optional keys returned for some agents only included — and what ends up on the Axes
-    (`drawn`) is, as a multiset, exactly one marker per agent currently in the space, the one the property
-    demands (`markerOf`), and nothing else; the calls are non-empty, homogeneous in marker and z-order, and
-    no (marker, z-order) pair is scattered twice. -/
+/-- a space that holds an agent is never one of those `draw_space` refuses before it looks at the agents -/
+theorem drawRaises_none_of_placed {sp : Space} (h : Reachable sp) (hne : sp.placed ≠ []) : drawRaises sp = none := by
+  have hw := reachable_wf h
+  have hnet : sp.fam.cellular = true → sp.cells.isEmpty = false := by
+    intro hcell
+    obtain ⟨a, ha⟩ := List.exists_mem_of_ne_nil _ hne
+    obtain ⟨l, _, hl⟩ := hw.located a ha
+    have hmem := hl hcell
+    cases hc : sp.cells with
+    | nil => rw [hc] at hmem; cases hmem
+    | cons c cs => rfl
+  have hext : sp.fam.isOrthogonal = true ∨ sp.fam.isHex = true ∨ sp.fam.cellular = false → ¬ (sp.w = 0 ∧ sp.h = 0) := by
+    intro hf hz
+    have := extent_pos h hne hf
+    omega
+  unfold drawRaises
+  cases hfam : sp.fam <;> simp only [hfam] at hnet hext ⊢ <;>
+    first
+    | rfl
+    | exact if_neg (hext (by simp [Family.isOrthogonal, Family.isHex, Family.cellular]))
+    | (rw [hnet rfl]; rfl)
+
+/-- `draw_space`, for every reachable space of the twelve classes, every heap and every portrayal — shared dicts and
+    optional keys returned for some agents only included.  It raises before looking at the agents exactly on the spaces
+    `drawRaises` names — a `mesa.space` grid or continuous space of size 0 × 0 (ZeroDivisionError in the default size), a
+    network without nodes (ValueError) —, and such a space holds no agent (outside the property's quantifier: no occupancy
+    state to show).  On every other space — every space that holds an agent among them — it succeeds, and what ends up on
+    the Axes (`drawn`) is, as a multiset, exactly one marker per agent currently in the space, the one the property demands
+    (`markerOf`), and nothing else; the calls are non-empty, homogeneous in marker and z-order, and no (marker, z-order)
+    pair is scattered twice. -/
 theorem C20_draw_one_marker_per_agent {sp : Space} (h : Reachable sp) (heap : Heap) (p : Portrayal) :
-    ∃ gs, drawSpace sp heap p = .ok gs ∧
+    (sp.placed ≠ [] → drawRaises sp = none) ∧
+    (∀ e, drawRaises sp = some e → drawSpace sp heap p = .error e ∧ sp.placed = []) ∧
+    (drawRaises sp = none → ∃ gs, drawSpace sp heap p = .ok gs ∧
       (gs.flatMap (·.drawn)).Perm (sp.placed.filterMap (markerOf sp.fam heap p)) ∧
       (∀ a ∈ sp.placed, (markerOf sp.fam heap p a).isSome) ∧
       (gs.flatMap (·.drawn)).length = sp.placed.length ∧
       (∀ g ∈ gs, g.drawn = g.members ∧ g.members ≠ [] ∧ ∀ e ∈ g.members, e.marker = g.marker ∧ e.zorder = g.zorder) ∧
-      (gs.map fun g => (g.marker, g.zorder)).Nodup := by
+      (gs.map fun g => (g.marker, g.zorder)).Nodup) := by
+  refine ⟨drawRaises_none_of_placed h, fun e he => ⟨by unfold drawSpace; rw [he], ?_⟩, fun hr => ?_⟩
+  · apply Classical.byContradiction
+    intro hne
+    rw [drawRaises_none_of_placed h hne] at he
+    cases he
   have w := reachable_wf h
   have hs := C20_scatter_partition (drawEntries sp heap p)
   have hd : ∀ g ∈ scatter (drawEntries sp heap p), g.drawn = g.members :=
@@ -207,7 +213,7 @@ theorem C20_draw_one_marker_per_agent {sp : Space} (h : Reachable sp) (heap : He
     flatMap_congr' hd
   have hp : ((scatter (drawEntries sp heap p)).flatMap (·.drawn)).Perm (sp.placed.filterMap (markerOf sp.fam heap p)) := by
     rw [hfm]; exact hs.1.trans (drawEntries_perm w heap p)
-  exact ⟨_, drawSpace_eq w heap p, hp, markerOf_isSome w heap p,
+  exact ⟨_, drawSpace_eq w hr heap p, hp, markerOf_isSome w heap p,
     hp.length_eq.trans (filterMap_length_full.mpr (markerOf_isSome w heap p)),
     fun g hg => ⟨hd g hg, hs.2.1 g hg⟩, hs.2.2⟩
 
@@ -216,7 +222,11 @@ theorem C20_draw_ok_one_marker_per_agent {sp : Space} (h : Reachable sp) (heap :
     {gs : List Group} (hd : drawSpace sp heap p = .ok gs) :
     (gs.flatMap (·.drawn)).Perm (sp.placed.filterMap (markerOf sp.fam heap p)) ∧
     (gs.flatMap (·.drawn)).length = sp.placed.length := by
-  obtain ⟨gs', h1, h2, _, h4, _⟩ := C20_draw_one_marker_per_agent h heap p
+  have hr : drawRaises sp = none := by
+    cases hc : drawRaises sp with
+    | none => rfl
+    | some e => unfold drawSpace at hd; rw [hc] at hd; cases hd
+  obtain ⟨gs', h1, h2, _, h4, _⟩ := (C20_draw_one_marker_per_agent h heap p).2.2 hr
   rw [hd] at h1
   injection h1 with h1
   subst h1
@@ -249,16 +259,17 @@ theorem C20_V7_some_agents_optional_drawn :
   intro heap p
   refine ⟨by decide, by decide, by decide, by decide⟩
 
-/-- V5: a space without agents is drawn without markers (and without an exception), by both back ends. -/
+/-- V5: a space without agents (one that `draw_space` does not refuse for its size, see above) is drawn without markers
+    and without an exception; Altair gets no rows. -/
 theorem C20_empty_space_draws_nothing {sp : Space} (h : Reachable sp) (heap : Heap) (p : Portrayal)
     (he : sp.placed = []) :
-    drawSpace sp heap p = .ok [] ∧ (altairSupported sp.fam = true → altairRows sp heap p = .ok []) := by
+    (drawRaises sp = none → drawSpace sp heap p = .ok []) ∧ (altairSupported sp.fam = true → altairRows sp heap p = .ok []) := by
   have w := reachable_wf h
   have hsa : spaceAgents sp = [] := by
     have := (spaceAgents_perm w).length_eq
     rw [he] at this
     exact List.length_eq_zero_iff.mp this
-  refine ⟨by rw [drawSpace_eq w, drawEntries, hsa]; rfl, fun hs => ?_⟩
+  refine ⟨fun hr => by rw [drawSpace_eq w hr, drawEntries, hsa]; rfl, fun hs => ?_⟩
   unfold altairRows
   rw [hs, hsa]
   rfl
@@ -276,21 +287,55 @@ theorem C20_distinct_locations_distinct_positions (fam : Family) {a b : Loc}
 
 /-! ## the default size -/
 
+/-- The default size and `draw_space`: the spaces `draw_space` refuses for their size (`drawRaises`) are exactly those
+    whose default size `(180 / extent)²` is undefined — for every space, reachable or not. -/
+theorem defaultSize_undefined_iff (sp : Space) : defaultSize sp = .undefined ↔ drawRaises sp ≠ none := by
+  have hsz : ∀ e : Int, sizeOfExtent e = .undefined ↔ ¬ 0 < e := by
+    intro e; unfold sizeOfExtent; split <;> simp_all
+  have hgrid : sizeOfExtent (max (sp.w : Int) (sp.h : Int)) = .undefined ↔ (sp.w = 0 ∧ sp.h = 0) := by
+    rw [hsz]; omega
+  have hnet : (if sp.cells.length = 0 then SizeDefault.undefined else if sp.cells.length = 1 then sizeOfExtent 1 else .layout) =
+      .undefined ↔ sp.cells.isEmpty = true := by
+    cases hc : sp.cells with
+    | nil => simp
+    | cons c cs =>
+      cases cs with
+      | nil => simp [sizeOfExtent]
+      | cons d ds => simp
+  unfold defaultSize drawRaises
+  cases hfam : sp.fam <;> simp only
+  case vor =>
+    have hx := spread_nonneg (sp.cells.map (·.x))
+    have hy := spread_nonneg (sp.cells.map (·.y))
+    constructor
+    · intro hu
+      rw [hsz] at hu
+      exfalso; apply hu
+      split <;> omega
+    · intro hn; exact absurd rfl hn
+  case netgrid => rw [hnet]; split <;> simp_all
+  case net => rw [hnet]; split <;> simp_all
+  all_goals (rw [hgrid]; split <;> simp_all)
+
 /-- The size of a marker whose portrayal names none (`s_default`) is a positive finite number in every reachable
     space that holds an agent: `(180 / max(width, height))²` on grids and continuous spaces (the extent is positive
-    there); `180²` on a network with a single node (fix V12: the layout has no extent — it was (180/0)² = inf);
-    `(180 / side)²` with the positive larger side of the centroids' bounding box on Voronoi grids with at least two
-    centroids.  (Networks with several nodes: by networkx's layout, not modelled.) -/
+    there); `180²` on a network with a single node (fix V12: the layout has no extent — it was (180/0)² = inf) and on a
+    Voronoi grid with a single centroid (fix V15: it was a ZeroDivisionError); `(180 / side)²` with the positive larger
+    side of the centroids' bounding box on Voronoi grids with more centroids.  (Networks with several nodes: by
+    networkx's layout, not modelled.)  In particular `draw_space` does not refuse such a space for its size. -/
 theorem C20_default_size_defined {sp : Space} (h : Reachable sp) (hne : sp.placed ≠ []) :
+    defaultSize sp ≠ .undefined ∧
     (sp.fam.isOrthogonal = true ∨ sp.fam.isHex = true ∨ sp.fam.cellular = false →
       0 < max (sp.w : Int) (sp.h : Int) ∧
       defaultSize sp = .exact ⟨32400, (max (sp.w : Int) (sp.h : Int) * max (sp.w : Int) (sp.h : Int)).toNat⟩) ∧
     (sp.fam = .net ∨ sp.fam = .netgrid →
       sp.cells.length ≠ 0 ∧ (sp.cells.length = 1 → defaultSize sp = .exact ⟨32400, 1⟩) ∧
       (2 ≤ sp.cells.length → defaultSize sp = .layout)) ∧
-    (sp.fam = .vor → 2 ≤ sp.cells.length → ∃ f, defaultSize sp = .exact f ∧ f.num = 32400 ∧ 0 < f.den) := by
+    (sp.fam = .vor → (∃ f, defaultSize sp = .exact f ∧ f.num = 32400 ∧ 0 < f.den) ∧
+      (sp.cells.length = 1 → defaultSize sp = .exact ⟨32400, 1⟩)) := by
   have hw := reachable_wf h
-  refine ⟨fun hf => ?_, fun hf => ?_, fun hf hlen => ?_⟩
+  refine ⟨fun hu => ?_, fun hf => ?_, fun hf => ?_, fun hf => ⟨?_, fun h1 => ?_⟩⟩
+  · exact (defaultSize_undefined_iff sp).mp hu (drawRaises_none_of_placed h hne)
   · have hpos := extent_pos h hne hf
     refine ⟨hpos, ?_⟩
     unfold defaultSize sizeOfExtent
@@ -310,34 +355,50 @@ theorem C20_default_size_defined {sp : Space} (h : Reachable sp) (hne : sp.place
     · unfold defaultSize
       have h1 : sp.cells.length ≠ 1 := by omega
       rcases hf with hf | hf <;> simp only [hf, if_neg hlen, if_neg h1]
-  · have hpos := bbox_pos hw.cellsNodup hlen
-    unfold defaultSize sizeOfExtent
-    simp only [hf, if_pos hpos]
+  · have hx := spread_nonneg (sp.cells.map (·.x))
+    have hy := spread_nonneg (sp.cells.map (·.y))
+    unfold defaultSize
+    simp only [hf]
+    have he : 0 ≤ max (spread (sp.cells.map (·.x))) (spread (sp.cells.map (·.y))) := by omega
+    generalize max (spread (sp.cells.map (·.x))) (spread (sp.cells.map (·.y))) = e at *
+    have hpos : 0 < (if e = 0 then 1 else e) := by split <;> omega
+    unfold sizeOfExtent
+    rw [if_pos hpos]
     refine ⟨_, rfl, rfl, ?_⟩
-    have : 0 < max (spread (sp.cells.map (·.x))) (spread (sp.cells.map (·.y))) *
-        max (spread (sp.cells.map (·.x))) (spread (sp.cells.map (·.y))) := Int.mul_pos hpos hpos
+    have := Int.mul_pos hpos hpos
     simp only
     omega
+  · match hc : sp.cells, h1 with
+    | [c], _ =>
+      unfold defaultSize
+      simp only [hf, hc]
+      have : spread [c.x] = 0 ∧ spread [c.y] = 0 := by simp [spread, minOf, maxOf]
+      simp [this.1, this.2, sizeOfExtent]
 
 /-! ## plotting keyword arguments -/
 
 /-- `draw_space(space, agent_portrayal, ax=ax, **kw)` with plotting keywords among `alpha` / `edgecolors` /
-    `linewidths`.  The keywords reach the scatter calls of grids and networks only (`kw'`; continuous and Voronoi
-    spaces drop them).  The call is refused exactly when the space holds an agent and some keyword is also
-    specified by some agent's portrayal (`clashes`; the first one in the order edgecolors, linewidths, alpha is
-    named); otherwise the scatter calls are those of `draw_space` without keywords — so
+    `linewidths`, on a space `draw_space` does not refuse for its size (there it raises the same error with keywords as
+    without).  The keywords reach the scatter calls of grids and networks only (`kw'`; continuous and Voronoi spaces drop
+    them).  The call is refused if and only if the space holds an agent and some keyword is also specified by some agent's
+    portrayal (`clashes`) — both directions —, and the keyword named in the error is the first one that clashes in the
+    order edgecolors, linewidths, alpha; otherwise the scatter calls are those of `draw_space` without keywords — so
     `C20_draw_one_marker_per_agent` applies to them — and every one is handed `kw'` in addition. -/
-theorem C20_draw_kwargs {sp : Space} (h : Reachable sp) (heap : Heap) (p : Portrayal) (kw : List (Key × Val)) :
+theorem C20_draw_kwargs {sp : Space} (h : Reachable sp) (hr : drawRaises sp = none) (heap : Heap) (p : Portrayal)
+    (kw : List (Key × Val)) :
     ∃ gs kw', drawSpace sp heap p = .ok gs ∧ kw' = (if forwardsKwargs sp.fam then kw else []) ∧
       ((sp.placed = [] ∨ ∀ kf ∈ optKeys, ¬ clashes (drawEntries sp heap p) kw' kf) →
         drawSpaceKw sp heap p kw = .ok ⟨gs, kw'⟩) ∧
+      (sp.placed ≠ [] → (∃ kf ∈ optKeys, clashes (drawEntries sp heap p) kw' kf) →
+        ∃ k, drawSpaceKw sp heap p kw = .error (.conflict k)) ∧
       (∀ k, drawSpaceKw sp heap p kw = .error (.conflict k) →
-        sp.placed ≠ [] ∧ ∃ kf ∈ optKeys, kf.1 = k ∧ clashes (drawEntries sp heap p) kw' kf) ∧
-      drawSpaceKw sp heap p kw ≠ .error .attribute := by
+        sp.placed ≠ [] ∧ ∃ kf before after, optKeys = before ++ kf :: after ∧ kf.1 = k ∧
+          clashes (drawEntries sp heap p) kw' kf ∧ ∀ kf' ∈ before, ¬ clashes (drawEntries sp heap p) kw' kf') ∧
+      drawSpaceKw sp heap p kw ≠ .error .attribute ∧ (∀ e, drawSpaceKw sp heap p kw ≠ .error (.raised e)) := by
   have w := reachable_wf h
   have hlen := drawEntries_length w heap p
-  refine ⟨_, _, drawSpace_eq w heap p, rfl, fun hc => ?_, fun k hk => ?_, ?_⟩
-  · rw [drawSpaceKw_eq w]
+  refine ⟨_, _, drawSpace_eq w hr heap p, rfl, fun hc => ?_, fun hne hcl => ?_, fun k hk => ?_, ?_, fun e => ?_⟩
+  · rw [drawSpaceKw_eq w hr]
     unfold scatterKw
     rcases hc with he | hc
     · have : drawEntries sp heap p = [] := List.length_eq_zero_iff.mp (by rw [hlen, he]; rfl)
@@ -347,7 +408,20 @@ theorem C20_draw_kwargs {sp : Space} (h : Reachable sp) (heap : Heap) (p : Portr
         have : drawEntries sp heap p = [] := by simpa using he
         rw [this]; rfl
       · rw [(kwConflict_none_iff _ _).mpr hc]
-  · rw [drawSpaceKw_eq w] at hk
+  · rw [drawSpaceKw_eq w hr]
+    unfold scatterKw
+    have hne' : (drawEntries sp heap p).isEmpty = false := by
+      cases hd : drawEntries sp heap p with
+      | nil => rw [hd] at hlen; exact absurd (List.length_eq_zero_iff.mp hlen.symm) hne
+      | cons e es => rfl
+    rw [hne']
+    simp only [Bool.false_eq_true, if_false]
+    cases hc : kwConflict (drawEntries sp heap p) (if forwardsKwargs sp.fam then kw else []) with
+    | some k => exact ⟨k, rfl⟩
+    | none =>
+      obtain ⟨kf, hm, hcl⟩ := hcl
+      exact absurd hcl ((kwConflict_none_iff _ _).mp hc kf hm)
+  · rw [drawSpaceKw_eq w hr] at hk
     unfold scatterKw at hk
     split at hk
     · cases hk
@@ -359,35 +433,19 @@ theorem C20_draw_kwargs {sp : Space} (h : Reachable sp) (heap : Heap) (p : Portr
         injection hk with hk
         injection hk with hk
         subst hk
-        refine ⟨fun hp => ?_, kwConflict_some hc⟩
+        refine ⟨fun hp => ?_, kwConflict_first hc⟩
         have : (drawEntries sp heap p).length = 0 := by rw [hlen, hp]; rfl
         exact he (by simpa using List.length_eq_zero_iff.mp this)
-  · rw [drawSpaceKw_eq w]
+  · rw [drawSpaceKw_eq w hr]
     unfold scatterKw
     split
     · intro hx; cases hx
     · cases kwConflict (drawEntries sp heap p) (if forwardsKwargs sp.fam then kw else []) <;> intro hx <;> cases hx
-
-/-- What the keywords do to the markers (matplotlib's side, `applyKw`): a keyword given sets that property of every
-    marker of every call, the other properties stay as the portrayals gave them; without keywords nothing changes. -/
-theorem C20_draw_kwargs_apply_to_every_marker (d : KwDrawing) :
-    d.drawn.flatten = (d.groups.flatMap (·.drawn)).map (applyKw d.kw) ∧
-    (∀ e, (applyKw d.kw e).loc = e.loc ∧ (applyKw d.kw e).s = e.s ∧ (applyKw d.kw e).c = e.c ∧
-      (applyKw d.kw e).marker = e.marker ∧ (applyKw d.kw e).zorder = e.zorder) ∧
-    (∀ e v, d.kw.lookup "alpha" = some v → (applyKw d.kw e).alpha = some v) ∧
-    (∀ e, d.kw.lookup "alpha" = none → (applyKw d.kw e).alpha = e.alpha) ∧
-    (d.kw = [] → d.drawn = d.groups.map (·.drawn)) := by
-  refine ⟨?_, fun e => ⟨rfl, rfl, rfl, rfl, rfl⟩, fun e v hv => by simp [applyKw, hv], fun e hv => by simp [applyKw, hv],
-    fun hk => ?_⟩
-  · unfold KwDrawing.drawn
-    induction d.groups with
-    | nil => rfl
-    | cons g gs ih => simp [List.flatMap_cons, ih]
-  · unfold KwDrawing.drawn
-    rw [hk]
-    apply List.map_congr_left
-    intro g _
-    exact List.map_id'' (fun e => applyKw_nil e) _
+  · rw [drawSpaceKw_eq w hr]
+    unfold scatterKw
+    split
+    · intro hx; cases hx
+    · cases kwConflict (drawEntries sp heap p) (if forwardsKwargs sp.fam then kw else []) <;> intro hx <;> cases hx
 
 /-! ## Altair -/
 
@@ -422,10 +480,13 @@ theorem C20_altair_row_values (heap : Heap) (p : Portrayal) (a : Agent) (l : Loc
     the row of the *first* agent of `space.agents` — a colour / size channel iff that agent's portrayal has the key,
     tooltips for its other keys (all but colour, size, x, y) in the portrayal's order — and of `{}` for a space without
     agents; the marks get the default size `30000 / min(width, height)²` exactly when sizes do not come from the rows;
-    x and y are ordinal (nominal for `mesa.space.ContinuousSpace`). -/
+    x and y are ordinal (nominal for `mesa.space.ContinuousSpace`).  On a supported space of width or height 0 (only
+    `mesa.space` classes can be built that small; it holds no agent) that default size is a ZeroDivisionError. -/
 theorem C20_altair_chart_encoding {sp : Space} (h : Reachable sp) (heap : Heap) (p : Portrayal)
     (hs : altairSupported sp.fam = true) :
-    ∃ c, altairChart sp heap p = .ok c ∧
+    (sp.placed ≠ [] → min sp.w sp.h ≠ 0) ∧
+    (min sp.w sp.h = 0 → altairChart sp heap p = .error .zeroDivision) ∧
+    (min sp.w sp.h ≠ 0 → ∃ c, altairChart sp heap p = .ok c ∧
       c.rows = (spaceAgents sp).filterMap (rowOf heap p) ∧
       (spaceAgents sp = [] → c.color = false ∧ c.size = false ∧ c.tooltip = []) ∧
       (∀ a rest, spaceAgents sp = a :: rest →
@@ -434,9 +495,18 @@ theorem C20_altair_chart_encoding {sp : Space} (h : Reachable sp) (heap : Heap) 
         c.tooltip = (Dict.keys (portrayed heap p a.id)).filter fun k => !invalidTooltips.contains k) ∧
       (c.markSize = none ↔ c.size = true) ∧
       (c.size = false → c.markSize = some ⟨30000, (min sp.w sp.h) * (min sp.w sp.h)⟩) ∧
-      c.xyType = (if sp.fam = .cs then "nominal" else "ordinal") := by
+      c.xyType = (if sp.fam = .cs then "nominal" else "ordinal")) := by
   have hr := ((C20_altair_one_row_per_agent h heap p).1 hs).1
-  refine ⟨_, altairChart_eq hr, rfl, fun he => ?_, fun a rest he => ?_, ?_, ?_, rfl⟩
+  have hposp : sp.placed ≠ [] → min sp.w sp.h ≠ 0 := min_pos_of_placed h hs
+  refine ⟨hposp, fun hz => ?_, fun hpos => ?_⟩
+  · have hpl : sp.placed = [] := Classical.byContradiction fun hne => hposp hne hz
+    have hsa : spaceAgents sp = [] := by
+      have := (spaceAgents_perm (reachable_wf h)).length_eq
+      rw [hpl] at this
+      exact List.length_eq_zero_iff.mp this
+    rw [hsa] at hr
+    exact altairChart_zero hr hz
+  refine ⟨_, altairChart_eq hr hpos, rfl, fun he => ?_, fun a rest he => ?_, ?_, ?_, rfl⟩
   · simp only [he, List.filterMap_nil]
     exact ⟨rfl, rfl, rfl⟩
   · obtain ⟨l, hl⟩ := spaceAgents_located (reachable_wf h) a (by rw [he]; exact List.mem_cons_self)
@@ -450,16 +520,22 @@ theorem C20_altair_chart_encoding {sp : Space} (h : Reachable sp) (heap : Heap) 
     rw [hsz]
     rfl
 
-/-- A portrayal that gives every agent a colour (a size) is encoded with it, one that gives none is not — whatever
-    the order of the agents.  (A key returned for some agents only is encoded iff the first agent of `space.agents`
-    has it: seen, not counted — the rows carry the values either way.) -/
-theorem C20_altair_uniform_portrayal_encoded {sp : Space} (h : Reachable sp) (heap : Heap) (p : Portrayal)
+/-- PARTIAL (open finding A1).  The full statement — "an agent whose portrayal returns a colour (a size) is drawn with
+    it", i.e. the chart has the channel as soon as some agent's row has the key — is false for `_draw_grid`, which reads
+    the encoding off the first row only (`C20_A1_first_row_encoding_refuted` below).  What holds: a portrayal that gives
+    every agent a colour (a size) is encoded with it, one that gives none is not — whatever the order of the agents; and
+    the rows (`C20_altair_row_values`) carry every agent's values in all cases. -/
+theorem C20_altair_portrayal_encoded_partial {sp : Space} (h : Reachable sp) (heap : Heap) (p : Portrayal)
     (hs : altairSupported sp.fam = true) {c : AltairChart} (hc : altairChart sp heap p = .ok c) :
     (sp.placed ≠ [] → (∀ a ∈ sp.placed, Dict.hasKey (portrayed heap p a.id) "color" = true) → c.color = true) ∧
     ((∀ a ∈ sp.placed, Dict.hasKey (portrayed heap p a.id) "color" = false) → c.color = false) ∧
     (sp.placed ≠ [] → (∀ a ∈ sp.placed, Dict.hasKey (portrayed heap p a.id) "size" = true) → c.size = true) ∧
     ((∀ a ∈ sp.placed, Dict.hasKey (portrayed heap p a.id) "size" = false) → c.size = false) := by
-  obtain ⟨c', hc', _, hnil, hcons, _⟩ := C20_altair_chart_encoding h heap p hs
+  have hpos : min sp.w sp.h ≠ 0 := by
+    intro hz
+    rw [(C20_altair_chart_encoding h heap p hs).2.1 hz] at hc
+    cases hc
+  obtain ⟨c', hc', _, hnil, hcons, _⟩ := (C20_altair_chart_encoding h heap p hs).2.2 hpos
   rw [hc] at hc'
   injection hc' with hc'
   subst hc'
@@ -480,6 +556,25 @@ theorem C20_altair_uniform_portrayal_encoded {sp : Space} (h : Reachable sp) (he
     exact ⟨fun _ hall => by rw [h1]; exact hall a ha, fun hall => by rw [h1]; exact hall a ha,
       fun _ hall => by rw [h2]; exact hall a ha, fun hall => by rw [h2]; exact hall a ha⟩
 
+/-- Open finding A1, the refutation of the full statement: on the hex grid `a1Space` agent 2 — the first of `space.agents` —
+    is portrayed by a z-order only and agents 1 and 3 by colour red and size 5: their rows carry colour and size, the
+    chart has neither channel (all marks get the default colour and the default size 30000 / 2²).  The other way round
+    (`a1Portrayal'`: only the first agent returns a size) the chart has a quantitative size channel that two of the
+    three rows have no value for. -/
+def a1Space : Space :=
+  { fam := .hexm, w := 2, h := 3, cells := gridCells 2 3,
+    placed := [mkAgent .hexm 1 ⟨1, 2⟩, mkAgent .hexm 2 ⟨0, 1⟩, mkAgent .hexm 3 ⟨1, 2⟩] }
+def a1Heap : Heap := [[("color", "red"), ("size", "5")], [("zorder", "2")]]
+def a1Portrayal : Portrayal := fun a => if a = 2 then some 1 else some 0
+def a1Portrayal' : Portrayal := fun a => if a = 2 then some 0 else some 1
+
+theorem C20_A1_first_row_encoding_refuted :
+    (∃ c, altairChart a1Space a1Heap a1Portrayal = .ok c ∧ c.color = false ∧ c.size = false ∧ c.markSize = some ⟨30000, 4⟩ ∧
+      (c.rows.filter fun r => Dict.hasKey r "color" && Dict.hasKey r "size").length = 2) ∧
+    (∃ c, altairChart a1Space a1Heap a1Portrayal' = .ok c ∧ c.size = true ∧ c.markSize = none ∧
+      (c.rows.filter fun r => !Dict.hasKey r "size").length = 2) := by
+  refine ⟨⟨_, rfl, ?_⟩, ⟨_, rfl, ?_⟩⟩ <;> decide
+
 /-! ## property layers -/
 
 /-- Orthogonal grids: the image handed to `imshow(origin="lower")` shows `data[x, y]` in column `x` of image
@@ -490,12 +585,24 @@ theorem C20_layer_image_orientation (L : Layer) (hw : L.wellFormed = true) {x y 
   obtain ⟨v, hv⟩ := Layer.at_isSome hw hx hy
   exact ⟨row, v, h1, by rw [h2, hv], hv⟩
 
-/-- Hex grids: the hexagon `_get_hexmesh` yields for column `x`, row `y` (number `y * w + x`, centred at
-    `hexCenter x y`, where the agents of that cell are drawn) is coloured with `data[x, y]`. -/
+/-- Hex grids: `_get_hexmesh` (`hexMesh`) yields one hexagon per cell, row by row; the hexagon number `y * w + x` is the
+    one centred at `hexCenter x y` — where the agents of cell `(x, y)` are drawn (`C20_hex_marker_at_hexagon_centre`) —, and
+    the colour with the same number (`hexColors`: `data.T.ravel()`, fix V8) is that of `data[x, y]`: the two lists that
+    `PolyCollection(hexagons, facecolors=…)` pairs up by position agree cell by cell, and there are as many of each as cells. -/
 theorem C20_layer_hex_orientation (L : Layer) (hw : L.wellFormed = true) {x y : Nat} (hx : x < L.w) (hy : y < L.h) :
+    (hexMesh L.w L.h).length = L.h * L.w ∧ (hexColors L).length = (hexMesh L.w L.h).length ∧
+    (hexMesh L.w L.h)[y * L.w + x]? = some (hexCenter x y) ∧
     ∃ v, (hexColors L)[y * L.w + x]? = some (some v) ∧ L.at x y = some v := by
   obtain ⟨v, hv⟩ := Layer.at_isSome hw hx hy
-  exact ⟨v, by rw [hexColors_getElem L hy hx, hv], hv⟩
+  refine ⟨hexMesh_length _ _, ?_, hexMesh_getElem L.w L.h hy hx, v, by rw [hexColors_getElem L hy hx, hv], hv⟩
+  rw [hexMesh_length]
+  unfold hexColors
+  generalize L.h = n
+  induction n with
+  | zero => simp
+  | succ n ih =>
+    rw [List.range_succ, List.flatMap_append, List.length_append, ih]
+    simp [Nat.succ_mul]
 
 /-- `data.ravel()`, what the code used before fix V8 -/
 def hexColorsRavel (L : Layer) : List (Option Int) :=
@@ -603,14 +710,14 @@ theorem C20_layers_drawn_are_the_requested_ones (fam : Family) (layers : List (S
 /-- `draw_space(space, agent_portrayal, propertylayer_portrayal, ax)` puts both on one Axes: the agents exactly as
     without layers (so `C20_draw_one_marker_per_agent` applies), then the layers exactly as `draw_property_layers`
     draws them; an empty request is skipped (on every class), a refused one raises after the agents are drawn. -/
-theorem C20_draw_space_with_layers {sp : Space} (h : Reachable sp) (heap : Heap) (p : Portrayal)
+theorem C20_draw_space_with_layers {sp : Space} (h : Reachable sp) (hr : drawRaises sp = none) (heap : Heap) (p : Portrayal)
     (layers : List (String × Layer)) (ports : List (String × LayerPortrayal)) :
     ∃ gs, drawSpace sp heap p = .ok gs ∧
       (ports = [] → drawSpaceFull sp heap p layers ports = .ok (gs, [])) ∧
       (ports ≠ [] → ∀ ds, drawLayers sp.fam layers ports = .ok ds → drawSpaceFull sp heap p layers ports = .ok (gs, ds)) ∧
       (ports ≠ [] → ∀ e, drawLayers sp.fam layers ports = .error e →
         drawSpaceFull sp heap p layers ports = .error (.layers e)) := by
-  obtain ⟨gs, hgs, _⟩ := C20_draw_one_marker_per_agent h heap p
+  obtain ⟨gs, hgs, _⟩ := (C20_draw_one_marker_per_agent h heap p).2.2 hr
   refine ⟨gs, hgs, fun he => ?_, fun hne ds hd => ?_, fun hne e hd => ?_⟩
   · unfold drawSpaceFull; rw [hgs, he]; rfl
   · have : ports.isEmpty = false := by cases ports <;> simp_all
@@ -634,13 +741,6 @@ theorem C20_layers_refused (fam : Family) (layers : List (String × Layer)) (nam
     simp only [Option.some.injEq, Prod.mk.injEq] at hr
     obtain ⟨rfl, rfl⟩ := hr
     cases hm : pt.mode <;> simp [hf, hlt]
-
-/-- V13: over a range without extent (a constant layer under the automatic range, or `vmin = vmax` given) every
-    cell is drawn at level 0 — a well-defined picture in all modes, not 0/0. -/
-theorem C20_V13_range_without_extent (alpha : Nat) (v m : Int) :
-    normLevel v m m = ⟨0, 1⟩ ∧ orthoShade alpha v m m = ⟨0, 1⟩ ∧ (hexShade alpha v m m).num = 0 ∧
-    (hexShade alpha v m m).den = 100 := by
-  simp [normLevel, orthoShade, hexShade]
 
 /-- Colour mode, orthogonal against hex grids: inside the range (and for `alpha ≤ 1`) both draw the cell at
     opacity `level · alpha`; they differ only in where they cut (`np.clip` of the product against `np.clip` of the
@@ -677,12 +777,6 @@ theorem C20_layer_color_modes_agree_in_range (alpha : Nat) (ha : alpha ≤ 100) 
 theorem C20_check_accepts_iff_binds_by_keyword (sig : List Param) (keys : List String) :
     checkModelParams sig keys = .ok () ↔ hasVarPositional sig = false ∧ bindsByKeyword sig keys :=
   checkModelParams_ok_iff sig keys
-
-/-- Constructors taking `*args` are refused whatever the parameters are. -/
-theorem C20_check_refuses_var_positional (sig : List Param) (keys : List String)
-    (h : ∃ p ∈ sig, p.kind = .varPos) : checkModelParams sig keys = .error .varPositional := by
-  unfold checkModelParams
-  rw [if_pos (hasVarPositional_iff.mpr h)]
 
 /-- The split into user-adjustable and fixed parameters loses and invents nothing, keeps the order inside
     each part, puts a parameter into the fixed part exactly when `check_param_is_fixed` says so, and — the
